@@ -323,6 +323,7 @@ func checkC17(r *core.Run) {
 	}
 	// ---- C17.nil
 	c17Nil(r, xc, txT)
+	c17Cleared(r, xc)
 	c17Reset(r, xc)
 	if mgr != nil {
 		var fs []*core.FuncInfo
@@ -749,4 +750,248 @@ func pureIDBuilder(g *core.FuncInfo) string {
 		return "no return"
 	}
 	return bad
+}
+
+// c17Cleared: pointer fields of the XA connection that one of its methods sets to nil (the branch identifier in
+// cleanXABranchContext) are not dereferenced afterwards in the same invocation: after a call on the receiver that
+// may clear field F, and before F is assigned again or tested non-nil, there is no method call / field access
+// through c.F and no call of a receiver method that dereferences c.F first thing (without testing it).
+// A failure path that cleans the branch context and then formats its error message from the identifier panics
+// instead of returning the error.
+// c17ClearedExempt: methods where the cleaning call cannot clear the field, by an invariant the rule cannot see
+// (confirmed by reading); the premise is re-checked on every run.
+var c17ClearedExempt = map[string]string{
+	"CloseForce": "only called on connections ranged out of the resource's keeper; a kept connection (isConnKept) keeps its identifier in cleanXABranchContext, so releaseIfNecessary finds it",
+}
+
+func c17Cleared(r *core.Run, xc *types.Named) {
+	w := r.W
+	st, ok := xc.Underlying().(*types.Struct)
+	if !ok {
+		return
+	}
+	var methods []*core.FuncInfo
+	for _, f := range w.SortedFuncs() {
+		if core.RecvNamed(f.Obj) == xc && !w.IsTestFile(f.Decl.Pos()) && f.Decl.Body != nil {
+			methods = append(methods, f)
+		}
+	}
+	onRecvField := func(f *core.FuncInfo, e ast.Expr) *types.Var {
+		sel, ok := ast.Unparen(e).(*ast.SelectorExpr)
+		if !ok {
+			return nil
+		}
+		rv := recvVarOf(f)
+		if rv == nil || core.ObjOf(f.Pkg.TypesInfo, sel.X) != rv {
+			return nil
+		}
+		v, _ := f.Pkg.TypesInfo.Uses[sel.Sel].(*types.Var)
+		if v == nil || !v.IsField() {
+			return nil
+		}
+		return v
+	}
+	isRecvCall := func(f *core.FuncInfo, call *ast.CallExpr) *core.FuncInfo {
+		sel, ok := ast.Unparen(call.Fun).(*ast.SelectorExpr)
+		if !ok {
+			return nil
+		}
+		rv := recvVarOf(f)
+		if rv == nil || core.ObjOf(f.Pkg.TypesInfo, sel.X) != rv {
+			return nil
+		}
+		g := w.Info(core.Callee(f.Pkg.TypesInfo, call))
+		if g == nil || core.RecvNamed(g.Obj) != xc {
+			return nil
+		}
+		return g
+	}
+	for i := 0; i < st.NumFields(); i++ {
+		fld := st.Field(i)
+		if _, isPtr := fld.Type().Underlying().(*types.Pointer); !isPtr {
+			continue
+		}
+		// methods that may clear the field (directly; then through calls on the receiver, to a fixpoint)
+		clears := map[*core.FuncInfo]bool{}
+		for _, f := range methods {
+			ast.Inspect(f.Decl.Body, func(n ast.Node) bool {
+				if as, ok := n.(*ast.AssignStmt); ok {
+					for i, l := range as.Lhs {
+						if onRecvField(f, l) == fld && i < len(as.Rhs) && isNilIdent(f.Pkg.TypesInfo, as.Rhs[i]) {
+							clears[f] = true
+						}
+					}
+				}
+				return true
+			})
+		}
+		if len(clears) == 0 {
+			continue
+		}
+		for changed := true; changed; {
+			changed = false
+			for _, f := range methods {
+				if clears[f] {
+					continue
+				}
+				ast.Inspect(f.Decl.Body, func(n ast.Node) bool {
+					if c, ok := n.(*ast.CallExpr); ok {
+						if g := isRecvCall(f, c); g != nil && clears[g] && !clears[f] {
+							clears[f] = true
+							changed = true
+						}
+					}
+					return true
+				})
+			}
+		}
+		// dereference of c.F: a method call or field access through it
+		derefIn := func(f *core.FuncInfo, n ast.Node) bool {
+			hit := false
+			ast.Inspect(n, func(m ast.Node) bool {
+				if _, isLit := m.(*ast.FuncLit); isLit {
+					return false
+				}
+				if sel, ok := m.(*ast.SelectorExpr); ok && onRecvField(f, sel.X) == fld {
+					hit = true
+				}
+				return !hit
+			})
+			return hit
+		}
+		// methods that dereference the field before testing or assigning it (entry dereference)
+		entryDeref := map[*core.FuncInfo]bool{}
+		mkSpec := func(f *core.FuncInfo, onDeref func(pos token.Pos, what string, st *flow.State)) *flow.Spec {
+			return &flow.Spec{W: w, Depth: 0, Inline: -1,
+				Classify: func(pkg *packages.Package, call *ast.CallExpr, callee *types.Func) []flow.Tag {
+					if g := isRecvCall(f, call); g != nil {
+						var tags []flow.Tag
+						if entryDeref[g] {
+							tags = append(tags, "derefs")
+						}
+						if clears[g] {
+							tags = append(tags, "cleared")
+						}
+						return tags
+					}
+					return nil
+				},
+				AssignTags: func(pkg *packages.Package, as *ast.AssignStmt) []flow.Tag {
+					for i, l := range as.Lhs {
+						if onRecvField(f, l) == fld && i < len(as.Rhs) {
+							if isNilIdent(pkg.TypesInfo, as.Rhs[i]) {
+								return []flow.Tag{"cleared"}
+							}
+							return []flow.Tag{"-cleared", "known"}
+						}
+					}
+					return nil
+				},
+				CondTags: func(pkg *packages.Package, cond ast.Expr, branch bool) []flow.Tag {
+					be, ok := ast.Unparen(cond).(*ast.BinaryExpr)
+					if !ok || (be.Op != token.EQL && be.Op != token.NEQ) {
+						return nil
+					}
+					x, y := be.X, be.Y
+					if isNilIdent(pkg.TypesInfo, x) {
+						x, y = y, x
+					}
+					if !isNilIdent(pkg.TypesInfo, y) || onRecvField(f, x) != fld {
+						return nil
+					}
+					if (be.Op == token.NEQ) == branch {
+						return []flow.Tag{"-cleared", "known"}
+					}
+					return nil
+				},
+				Visit: func(pkg *packages.Package, n ast.Node, st *flow.State) {
+					if derefIn(f, n) {
+						onDeref(n.Pos(), "c."+fld.Name(), st)
+					}
+				}}
+		}
+		for round := 0; round < 3; round++ {
+			for _, f := range methods {
+				if entryDeref[f] {
+					continue
+				}
+				found := false
+				sp := mkSpec(f, func(pos token.Pos, what string, st *flow.State) {
+					if !st.Has("known") {
+						found = true
+					}
+				})
+				res := sp.Analyze(f)
+				for _, cp := range res.Calls {
+					if inSet("derefs", cp.Tags...) && !cp.Before.Has("known") {
+						found = true
+					}
+				}
+				if found {
+					entryDeref[f] = true
+				}
+			}
+		}
+		// the rule: no dereference while the field may have been cleared in this invocation
+		for _, f := range methods {
+			bad := ""
+			sp := mkSpec(f, func(pos token.Pos, what string, st *flow.State) {
+				if st.Maybe("cleared") && bad == "" {
+					bad = w.Pos(pos) + ": " + what + " is used"
+				}
+			})
+			res := sp.Analyze(f)
+			nSites := 0
+			for _, cp := range res.Calls {
+				if inSet("cleared", cp.Tags...) {
+					nSites++
+				}
+				if inSet("derefs", cp.Tags...) && cp.Before.Maybe("cleared") && bad == "" {
+					bad = w.Pos(cp.Call.Pos()) + ": " + core.ShortKey(cp.Callee) + " is called, which uses c." + fld.Name() + " without testing it"
+				}
+			}
+			if nSites == 0 && !clears[f] {
+				continue
+			}
+			r.Fn(f)
+			r.Sites++
+			if why, ok := c17ClearedExempt[f.Obj.Name()]; ok && bad != "" {
+				// the exemption's premise is checked: every caller takes the connection out of the keeper
+				premise := true
+				nCallers := 0
+				for _, cs := range w.Callers(f.Obj) {
+					if w.IsTestFile(cs.Call.Pos()) {
+						continue
+					}
+					nCallers++
+					inKeeperRange := false
+					if cs.InLit != nil {
+						ast.Inspect(cs.Caller.Decl.Body, func(n ast.Node) bool {
+							c, ok := n.(*ast.CallExpr)
+							if !ok || len(c.Args) != 1 || ast.Unparen(c.Args[0]) != ast.Expr(cs.InLit) {
+								return true
+							}
+							if sel, ok := ast.Unparen(c.Fun).(*ast.SelectorExpr); ok && sel.Sel.Name == "Range" {
+								if inner, ok := ast.Unparen(sel.X).(*ast.CallExpr); ok {
+									if g := core.Callee(cs.Caller.Pkg.TypesInfo, inner); g != nil && g.Name() == "GetKeeper" {
+										inKeeperRange = true
+									}
+								}
+							}
+							return true
+						})
+					}
+					if !inKeeperRange {
+						premise = false
+					}
+				}
+				if premise && nCallers > 0 {
+					r.OK("C17.nil", core.ShortKey(f.Obj)+" does not use c."+fld.Name()+" after the branch context was cleaned", w.Pos(f.Decl.Pos()), "exempt: "+why)
+					continue
+				}
+			}
+			r.Check(bad == "", "C17.nil", core.ShortKey(f.Obj)+" does not use c."+fld.Name()+" after the branch context was cleaned", w.Pos(f.Decl.Pos()), "no use of the cleared field before it is set again",
+				"after a call that may set c."+fld.Name()+" to nil, "+bad+": the failure path panics (nil pointer) instead of returning its error to the caller")
+		}
+	}
 }
